@@ -724,3 +724,21 @@ func FreePhases(rng *Rng) (string, Cfg) {
 	c.WaitInput = 1
 	return "free-phases", c
 }
+
+// FreeZeroCapacities: the degenerate sizes: an unbuffered outbound queue (a send is accepted only
+// when the writer is parked in its receive), an unbuffered inbound channel with a consumer, an
+// unbuffered error channel.
+func FreeZeroCapacities(rng *Rng) (string, Cfg) {
+	c := base(rng, 0)
+	var g idGen
+	c.Ocap = 0
+	c.Icap = rng.PickInt(0, 0, 1)
+	c.Ecap = rng.PickInt(0, 0, 1)
+	c.Senders = [][]PktSpec{g.pkts(rng, rng.Range(5, 60), smallSizes)}
+	c.BurstEvery = rng.PickInt(1, 2, 3)
+	c.Closers = []bool{true}
+	c.PeerRead = rng.Intn(2)
+	c.Input = inputFrames(rng, rng.Range(0, 10), smallSizes)
+	c.WaitInput = 2
+	return "free-zero-capacities", c
+}
